@@ -412,8 +412,10 @@ func (c *Real32) LogBesselI(v float64, b ConstScalar) Scalar {
 }
 /* -------------------------------------------------------------------------- */
 func (r *Real32) SmoothMax(x ConstVector, alpha ConstFloat64, t [2]Scalar) Scalar {
-  r .Reset()
-  t[1].Reset()
+  // start from constants: the receiver and the temporaries may still carry the
+  // order of an earlier computation, which Reset() keeps
+  r .Set(ConstFloat64(0.0))
+  t[1].Set(ConstFloat64(0.0))
   for i := 0; i < x.Dim(); i++ {
     t[0].Mul(alpha, x.ConstAt(i))
     t[0].Exp(t[0])
@@ -425,8 +427,9 @@ func (r *Real32) SmoothMax(x ConstVector, alpha ConstFloat64, t [2]Scalar) Scala
   return r
 }
 func (r *Real32) LogSmoothMax(x ConstVector, alpha ConstFloat64, t [3]Scalar) Scalar {
-  r .SetFloat64(math.Inf(-1))
-  t[2].SetFloat64(math.Inf(-1))
+  // start from constants (see SmoothMax)
+  r .Set(ConstFloat64(math.Inf(-1)))
+  t[2].Set(ConstFloat64(math.Inf(-1)))
   for i := 0; i < x.Dim(); i++ {
     t[0].Mul(x.ConstAt(i), alpha)
     t[2].LogAdd(t[2], t[0], t[1])
@@ -439,7 +442,9 @@ func (r *Real32) LogSmoothMax(x ConstVector, alpha ConstFloat64, t [3]Scalar) Sc
   return r
 }
 func (r *Real32) Vmean(a ConstVector) Scalar {
-  r.Reset()
+  // start from the constant zero: Reset() would keep the order of an earlier
+  // computation and the sum over constants would look like a variable
+  r.Set(ConstFloat64(0.0))
   for i := 0; i < a.Dim(); i++ {
     r.Add(r, a.ConstAt(i))
   }
@@ -449,7 +454,9 @@ func (r *Real32) VdotV(a, b ConstVector) Scalar {
   if a.Dim() != b.Dim() {
     panic("vector dimensions do not match")
   }
-  r.Reset()
+  // start from the constant zero: Reset() would keep the order of an earlier
+  // computation and the sum over constants would look like a variable
+  r.Set(ConstFloat64(0.0))
   t := NullReal32()
   for i := 0; i < a.Dim(); i++ {
     t.Mul(a.ConstAt(i), b.ConstAt(i))
@@ -458,7 +465,9 @@ func (r *Real32) VdotV(a, b ConstVector) Scalar {
   return r
 }
 func (r *Real32) Vnorm(a ConstVector) Scalar {
-  r.Reset()
+  // start from the constant zero: Reset() would keep the order of an earlier
+  // computation and the sum over constants would look like a variable
+  r.Set(ConstFloat64(0.0))
   t := NullReal32()
   for it := a.ConstIterator(); it.Ok(); it.Next() {
     t.Pow(it.GetConst(), ConstFloat32(2.0))
@@ -475,7 +484,9 @@ func (r *Real32) Mtrace(a ConstMatrix) Scalar {
   if n == 0 {
     return nil
   }
-  r.Reset()
+  // start from the constant zero: Reset() would keep the order of an earlier
+  // computation and the sum over constants would look like a variable
+  r.Set(ConstFloat64(0.0))
   for i := 0; i < n; i++ {
     r.Add(r, a.ConstAt(i,i))
   }
